@@ -143,6 +143,16 @@ def _py7zr_read(job):
     with py7zr.SevenZipFile(io.BytesIO(data), "r", **kw) as z:
         out["names"] = z.getnames()
         out["list"] = [(f.filename, f.uncompressed, f.is_directory, f.crc32) for f in z.list()]
+        fs_ = z.header.main_streams.unpackinfo.folders if z.header.main_streams is not None else []
+        offs, slots = {}, []
+        for f in z.files:
+            if f.emptystream or f.folder is None:
+                slots.append(None)
+            else:
+                k = fs_.index(f.folder)
+                slots.append((k, offs.get(k, 0), f.uncompressed, f.crc32))
+                offs[k] = offs.get(k, 0) + f.uncompressed
+        out["slots"] = slots
         out["meta"] = [(f.filename, f.emptystream, f.is_directory, f.is_symlink, (int(f.lastwritetime) if f.lastwritetime is not None else None),
                         f._file_info.get("attributes")) for f in z.files]
     with py7zr.SevenZipFile(io.BytesIO(data), "r", **kw) as z:
@@ -242,6 +252,26 @@ def compare(members, got):
     return diffs
 
 
+def assignment(ctx, ref, val, cls, lines, impl, classes, inp):
+    """py7zr's member -> (folder, offset, size, digest) map vs (a) the model's cursor on the same header values
+    (correspondence of Impl.assign) and (b) the format's assignment computed by the strict reader (the property)."""
+    streams = ref.get("streams")
+    if not streams:
+        return
+    flags = "".join("1" if m["es"] else "0" for m in ref["members"]) or "-"
+
+    def nats(xs):
+        return ",".join(str(x) for x in xs) or "-"
+    lines.append("asg.run %s %s %s %s" % (flags, nats(streams["nums"]), nats(streams["sizes"]), ",".join("N" if c is None else str(c) for c in streams["crcs"]) or "-"))
+    got = val["slots"]
+    impl.append(",".join("-" if s is None else "%d:%d:%d:%s" % (s[0], s[1], s[2], "N" if s[3] is None else s[3]) for s in got) or "empty")
+    classes.append(cls)
+    want = [None if m["folder"] is None else (m["folder"], m["offset"], m["size"], m["crc"]) for m in ref["members"]]
+    if [None if s is None else tuple(s) for s in got] != want:
+        k = next((i for i, (a, b) in enumerate(zip(got, want)) if (None if a is None else tuple(a)) != b), None)
+        ctx.fail("C06:assignment", "member %s is given sub-stream %s, the format assigns %s" % (k, got[k] if k is not None else got, want[k] if k is not None else want), inp)
+
+
 def run(ctx):
     rng = ctx.rng
     ctx.lean_obligations("SevenZ.Props.C06")
@@ -260,7 +290,8 @@ def run(ctx):
             cases.append((feat, members, lay, data))
     # 1. the reference writer's output must satisfy the Lean strict reader and decode to the logical archive
     refs = refreader.read_many(ctx, [c[3] for c in cases], [c[2]["password"] for c in cases])
-    good = []
+    good, good_refs = [], []
+    asg_lines, asg_impl, asg_cls = [], [], []
     for (feat, members, lay, data), r in zip(cases, refs):
         ok = r["ok"] and [m["name"] for m in r["members"]] == [m["name"] for m in members] and \
             all(rm["kind"] == m["kind"] or (m["kind"] == "emptyfile" and not lay["emptyfile_vector"]) or (m["attr"] is None and m["kind"] == "symlink")
@@ -271,12 +302,15 @@ def run(ctx):
                                "detail": {"feature": feat, "error": r.get("error"), "archive_hex": data.hex()[:4000]}})
             continue
         good.append((feat, members, lay, data))
+        good_refs.append(r)
     st = ctx.streams.setdefault("refwriter-vs-strict-reader", {"cases": 0, "disagreements": 0})
     st["cases"] += len(cases)
     st["disagreements"] += len(cases) - len(good)
     # 2. py7zr reads the same archives
     res = sandbox.pmap(_py7zr_read, [(c[3], c[2]["password"]) for c in good], timeout=60)
-    for (feat, members, lay, data), (stt, val) in zip(good, res):
+    for (feat, members, lay, data), (stt, val), r in zip(good, res, good_refs):
+        if stt == "ok":
+            assignment(ctx, r, val, feat, asg_lines, asg_impl, asg_cls, {"feature": feat, "archive_hex": data.hex() if len(data) < 6000 else None})
         key = (feat, zlib.crc32(data))
         ctx.case(key=key, nontrivial=len(members) >= 2 and feat != "plain",
                  sample={"feature": feat, "members": [(m["name"][:20], m["kind"], len(m["data"])) for m in members][:4], "folders": [(c, len(p)) for c, p in lay["folders"]]})
@@ -312,12 +346,14 @@ def run(ctx):
         if stt != "ok":
             ctx.fail("C06:fixture:" + fn, "py7zr fails on third-party fixture %s which the reference reader decodes: %s" % (fn, str(val)[:200]), {"fixture": fn})
             continue
+        assignment(ctx, r, val, "fixture", asg_lines, asg_impl, asg_cls, {"fixture": fn})
         d = compare(members, val)
         d = [x for x in d if not x.startswith("kind:emptyfile")]
         ctx.count("fixtures", "ok" if not d else "diff")
         if d:
             ctx.fail("C06:fixture:" + fn, "py7zr and the reference reader disagree on fixture %s: %s" % (fn, d[0]), {"fixture": fn, "diff": d[:5]})
     ctx.count("fixtures", "reference-reader-cannot-decode", len(fx) - len(usable))
+    ctx.correspond("asg.run", asg_lines, asg_impl, asg_cls)
 
 
 def replay(ctx, data):
